@@ -38,7 +38,8 @@ RULE = (
 )
 ASSUMPTIONS = [
     'formula values come from the numpy reference evaluator biomon/oracle/evalast.py (cases it finds out-of-domain, '
-    'ill-conditioned or within 1e-6 of a branch tie are regenerated, not judged); stored values are accepted at rtol 1e-9 / '
+    'ill-conditioned, within 1e-6 of a branch tie, or exactly at a tie whose operands involve a transcendental / composite operator '
+    '(biomon/oracle/c13_ties.py) are regenerated, not judged); stored values are accepted at rtol 1e-9 / '
     'atol 1e-11 (1e-6 / 1e-8 when the formula contains the engine normal CDF) and the shadow then adopts the stored value',
     'a remove condition is used only when every row is exactly 0 or farther than 1e-6 from 0 in the reference evaluation',
     'two rows are the same row when index label and all values coincide; partitions are judged on multisets of such rows',
@@ -250,7 +251,7 @@ def run_case(case):
     from biogeme.database import Database
     from biogeme.exceptions import BiogemeError
     from ..gen import c13_ops, exprs, build
-    from ..oracle import c13_contracts as mon, c13_shadow as sh, evalast
+    from ..oracle import c13_contracts as mon, c13_shadow as sh, c13_ties, evalast
 
     rec = Rec(case)
     if case['mode'] == 'directed':
@@ -347,6 +348,9 @@ def run_case(case):
         v = j['value']
         if cond and np.any((np.abs(v) <= 1e-6) & (v != 0)):
             rec.c('formula_rejected_condition_near_zero')
+            return None
+        if not c13_ties.safe(d['ast'], state['shadow'].data(), bv, d.get('shared') or [], top_is_condition=cond):
+            rec.c('formula_rejected_rounding_sensitive_decision')
             return None
         return v
 
